@@ -37,6 +37,9 @@ work_queue_item_t* OUTP; /* where get_work stores the item */
                   (G.role != WORKER || CUR_IN >= 1 || G.drained))
 static int inv_now(void) { return LIVE_INV && G.lastin == CUR_IN && G.lastout == CUR_OUT; }
 
+/* the loop contract of get_work (named by loops.json) */
+#define GETWORK_ASSIGNS WQ.in_count, WQ.out_count, G, verif_rmw, OUTP
+#define GETWORK_INV (G.role == WORKER && G.a.unc == 0 && G.a.ret0 == 0 && G.pops == 0 && G.counted == 0 && G.mid == 0 && G.drained == 0 && LIVE_INV && G.lastin == CUR_IN && G.lastout == CUR_OUT)
 #include "src/work_queue.c"
 
 static void spec_snap(void) { G.lastin = CUR_IN; G.lastout = CUR_OUT; }
